@@ -24,14 +24,38 @@ def try_harness(tier):
                    defines={'STRING_LITERALS_OPAQUE': 1}, inputs=['behav', 'match_of'],
                    note='body/handlers/finally: abstract children, each returns or throws one of 6 kinds; typed clauses match per oracle bit')
 
+def funcall_harness(save):
+    from props.engine_family import FAM as ENG, DE
+    rx = r'Fun_Call_AST_Node<.*>::do_eval_internal<%s>\(' % ('true' if save else 'false')
+    CS = r'std::__detail::_Map_base<unsigned long, std::pair<unsigned long const, chaiscript::Type_Conversions::Conversion_Saves>.*::operator\[\]'
+    stubs = [r'AST_Node_Impl<.*>::eval\(', r'Proxy_Function_Base::operator\(\)', r'chaiscript::boxed_cast<', DE + r'boxed_cast<', r'Function_Push_Pop::', r'chaiscript::detail::Dispatch_State::conversions',
+             r'std::vector<chaiscript::Boxed_Value.*>::~vector', CS]
+    cuts = [r'eval_error::', r'Boxed_Value::~Boxed_Value', r'dispatch_error::', r'std::shared_ptr<.*>::~shared_ptr', r'std::vector<std::shared_ptr<.*>::~vector', r'std::unordered_map<unsigned long, chaiscript::Type_Conversions::Conversion_Saves.*::~unordered_map',
+            r'std::operator\+<char', r'basic_string<char, std::char_traits<char>, std::allocator<char> >::(basic_string|~basic_string)', r'AST_Node::pretty_print']
+    TIS = {'TI_BAD_BOXED_CAST': '_ZTIN10chaiscript9exception14bad_boxed_castE', 'TI_ARITY_ERROR': '_ZTIN10chaiscript9exception11arity_errorE', 'TI_GUARD_ERROR': '_ZTIN10chaiscript9exception11guard_errorE',
+           'TI_DISPATCH_ERROR': '_ZTIN10chaiscript9exception14dispatch_errorE', 'TI_RETURN_VALUE': '_ZTIN10chaiscript4eval6detail12Return_ValueE'}
+    d = {'CALL_NODE': core.csym(ENG, rx), 'NODE_EVAL_CHILD': core.csym(ENG, r'AST_Node_Impl<.*>::eval\(chaiscript::detail::Dispatch_State const&\) const$'), 'FUNC_CALL': core.csym(ENG, r'^chaiscript::dispatch::Proxy_Function_Base::operator\(\)\('),
+         'CAST_PFB': core.csym(ENG, r'chaiscript::boxed_cast<chaiscript::dispatch::Proxy_Function_Base const\*>\('), 'CAST_SHARED_PFB': core.csym(ENG, DE + r'boxed_cast<std::shared_ptr<chaiscript::dispatch::Proxy_Function_Base const> const&>\('),
+         'FPP_CTOR': core.csym(ENG, r'Function_Push_Pop::Function_Push_Pop\(chaiscript::detail::Dispatch_State const&\)$'), 'FPP_DTOR': core.csym(ENG, r'Function_Push_Pop::~Function_Push_Pop\(\)$'),
+         'FPP_SAVE': core.csym(ENG, r'Function_Push_Pop::save_params\(chaiscript::Function_Params const&\)$'), 'CONVERSIONS': core.csym(ENG, r'^chaiscript::detail::Dispatch_State::conversions\(\) const$'),
+         'BV_VEC_DTOR': core.csym(ENG, r'^std::vector<chaiscript::Boxed_Value, std::allocator<chaiscript::Boxed_Value> >::~vector\(\)$'), 'CONV_SAVES': core.csym(ENG, CS), 'SAVE_PARAMS': int(save), 'STRING_LITERALS_OPAQUE': 1, 'VERIF_CALL_V1(f,a)': '__VERIF_v1_hook(f,a)'}
+    for k, v in TIS.items(): d[k] = '((char*)&g_%s)' % v
+    wit = ('witness: argument throws', 'witness: function expression throws', 'witness: not a function', 'witness: call returns', 'witness: return value', 'witness: dispatch failure reported', 'witness: callee exception passes')
+    h = Harness('X4.Fun_Call<%s>' % ('saving' if save else 'no-copy'), ENG, [rx], 'c10_funcall.c', stubs=stubs, cuts=cuts,
+                shapes=[dict(d, NA=n, _tag='args=%d' % n, _witness=tuple(w for w in wit if n or w != 'witness: argument throws')) for n in (0,)],      # with arguments (a std::vector<Boxed_Value> built in a byte-addressed temporary): out of memory at 24 GB, not resolved opts=['--unwind', '6', '--unwindset', 'main.0:8'], timeout=600, mem_gb=8,
+                inputs=['behav', 'call_beh', 'fn_is_function'], note='calls without arguments (with arguments: no verdict, out of memory); function expression abstract (returns or throws 6 kinds); the call: returns or throws one of 9 kinds')
+    h.need_globals = ['_ZTIN10chaiscript9exception10eval_errorE', '_ZTIN10chaiscript11Boxed_ValueE'] + list(TIS.values())
+    return h
+
 def harnesses(tier):
     from props import C20, C09
     hs = [try_harness(tier)]
     w = C20.eval_wrapper_harness(); w.name = 'X2.eval_wrapper'; hs.append(w)          # every node evaluation: exceptions leave as the same object
     for k in (7, 8):                                                                   # For and Switch nodes: exceptions of any child leave unchanged
         h = C09.node_harness(k); h.name = 'X3.' + h.name[2:]; hs.append(h)
+    hs += [funcall_harness(True), funcall_harness(False)]
     return hs
 
 ASSUMPTIONS = ['children are abstract: eval() of a child returns a value or throws eval_error / runtime_error / out_of_range / std::exception / Boxed_Value / a foreign type',
                'Param_Types::match is an oracle; Scope push/pop are counters (their real code: C09)', 'exception objects are not destroyed by the model (no double-free claims)']
-OUTSIDE = ['propagation through dispatch (Proxy_Function / Dynamic_Proxy_Function / std::function wrappers) and library callbacks beyond node level', 'Fun_Call turning dispatch_error into eval_error']
+OUTSIDE = ['propagation through dispatch (Proxy_Function / Dynamic_Proxy_Function / std::function wrappers) and library callbacks beyond node level', 'Dot_Access / Array_Call / Equation call sites (same pattern as Fun_Call: X4)']
